@@ -63,6 +63,24 @@ def impl():
     return mparser, RawPrinter, MesonException
 
 
+def json_spans(tree) -> T.List[T.Tuple[str, int, int, int, int]]:
+    """(node, lineno, colno, end_lineno, end_colno) of every call/array entry of AstJSONPrinter's output"""
+    from mesonbuild.ast.printer import AstJSONPrinter
+    p = AstJSONPrinter()
+    tree.accept(p)
+    out = []
+    stack: T.List[T.Any] = [p.result]
+    while stack:
+        x = stack.pop()
+        if isinstance(x, dict):
+            if x.get('node') in ('FunctionNode', 'ArrayNode'):
+                out.append((x['node'], x['lineno'], x['colno'], x['end_lineno'], x['end_colno']))
+            stack.extend(x.values())
+        elif isinstance(x, list):
+            stack.extend(x)
+    return sorted(out)
+
+
 def S(s: str) -> str:
     return 's' + '.'.join(str(ord(c)) for c in s)
 
@@ -357,6 +375,14 @@ def run_one(mods, code: str) -> Outcome:
                 viol.append((key, f'text[span] of {k} at {n.lineno}:{n.colno} is {cut!r}, construct is {core!r}'))
                 tags.append(key)
                 break
+    # second observation route: the spans AstJSONPrinter reports are the ones on the node objects
+    try:
+        direct = sorted((type(n).__name__, n.lineno, n.colno, n.end_lineno, n.end_colno)
+                        for n in walk(tree) if type(n).__name__ in ('FunctionNode', 'ArrayNode'))
+        if json_spans(tree) != direct:
+            tags.append('json-printer-spans-differ')
+    except Exception as e:
+        tags.append('json-printer-error:' + type(e).__name__)
     e = '=' if rt_ok else S(printed)
     return Outcome(f'OK|{e}|{sexp(tree)}', viol, tags, True)
 
@@ -668,6 +694,8 @@ def _process(codes: T.List[str], want_nontrivial: bool) -> dict:
         res['n'] += 1
         for t in o.tags:
             tags[t] = tags.get(t, 0) + 1
+            if t.startswith('json-printer') and len(res['dis']) < 10:
+                res['dis'].append({'input': c, 'impl': t, 'model': 'AstJSONPrinter reports the spans of the node objects'})
         for key, what in o.violations:
             if len(res['viol']) < 200:
                 res['viol'].append((key, what, c))
